@@ -80,3 +80,14 @@ pub proof fn axiom_fresh_item_not_terminated<S: Stream>(x: S::Item) where S::Ite
     requires S::item_fresh(&x)
     ensures !x.terminated()
 { }
+
+/// T2: `this.stream.as_mut().set(None)` — the adapters drop their upstream in place.  The assignment itself is
+/// kept (and verified); its precondition states the fusing discipline: upstream is dropped only after it ended.
+pub fn vx_end_stream<S: Stream>(o: &mut Option<S>)
+    requires
+        //@ [c10.upstream_dropped_only_when_ended: C10,C09]
+        *old(o) matches Some(s) ==> s.ended(),
+    ensures *final(o) is None,
+{
+    *o = None;
+}
